@@ -4,7 +4,7 @@ package go9p
 // request is held inside the implementation and further requests wait behind it under the same tag when the
 // Tversion arrives; the held request then returns. A new session (attach) follows, and requests that reuse the old
 // tags are answered, exactly once each, in order.
-func vxH03Reset(waiting int) {
+func vxH03Reset(waiting int, late bool) {
 	kit := vxNewKit(false, false, 8192, true)
 	kit.ops.echo = true
 	nc := vxNewNetConn()
@@ -32,6 +32,10 @@ func vxH03Reset(waiting int) {
 	vxQuiesce()
 	fs, ok := vxFrames(nc.wire[mark:])
 	vxAssert(ok && len(fs) == 1 && fs[0].typ == Rversion, "mid-session-Tversion-answered")
+	if late {
+		vxH03ResetLate(kit, nc, g)
+		return
+	}
 	// the held request returns after the reset
 	g <- true
 	vxQuiesce()
@@ -63,5 +67,42 @@ func vxH03Reset(waiting int) {
 	vxAssert(natt == 1, "attach-after-the-reset-answered")
 	vxAssert(n5 == 2 && n6 == 1, "requests-reusing-the-aborted-tags-are-answered-once-each")
 	vxAssert(other == 0, "no-reply-for-an-aborted-request-after-the-reset")
+	vxReach("done")
+}
+
+// the aborted request is still executing when the new session reuses its tag for a group of its own: the old
+// request's end must not disturb the new group (one at a time, in arrival order, each answered once)
+func vxH03ResetLate(kit *vxKit, nc *vxNetConn, oldGate chan bool) {
+	mark := len(nc.wire)
+	nc.in <- refEncode(Tattach, 1, []refItem{refU32(9), refU32(NOFID), refS("u0"), refS(""), refU32(0)}, true)
+	vxQuiesce()
+	g2 := make(chan bool, 1)
+	kit.ops.gate[5] = g2
+	nc.in <- refEncode(Tstat, 5, []refItem{refU32(9)}, true) // B: first of the new group, held once it has started
+	vxQuiesce()
+	oldGate <- true // the aborted request of the old session returns now
+	vxQuiesce()
+	delete(kit.ops.gate, 5)
+	before := kit.ops.ncalls("stat")
+	vxAssert(before >= 1, "first-member-of-the-new-group-is-executing")
+	nc.in <- refEncode(Tstat, 5, []refItem{refU32(9)}, true) // C: queued behind B
+	vxQuiesce()
+	vxAssert(kit.ops.ncalls("stat") == before, "second-member-of-the-new-group-waits-for-the-first")
+	g2 <- true
+	vxQuiesce()
+	vxAssert(kit.ops.ncalls("stat") == before+1, "second-member-starts-after-the-first-was-answered")
+	fs, ok := vxFrames(nc.wire[mark:])
+	vxAssert(ok, "reply-stream-well-formed")
+	n5, other := 0, 0
+	for _, f := range fs {
+		switch {
+		case f.typ == Rattach && f.tag == 1:
+		case f.typ == Rstat && f.tag == 5:
+			n5++
+		default:
+			other++
+		}
+	}
+	vxAssert(n5 == 2 && other == 0, "new-group-answered-once-each-and-nothing-else")
 	vxReach("done")
 }
